@@ -161,3 +161,69 @@ class ConcBk:
     @staticmethod
     def not_(c):
         return not c
+
+
+# ---------------------------------------------------------------------------
+# reference dual-tree column operations (dtcwt/numpy/lowlevel.py), one axis.
+# tap(t) are the reference's (un-reversed) filter arrays.  delta = 0 when
+# sum(ha*hb) > 0 (lowpass pair), 1 otherwise (highpass pair): the reference
+# decides the interleaving order of the two trees from that sign.
+# ---------------------------------------------------------------------------
+def dt_colfilter_len(bk, r, m):
+    return r + 1 - bk.mod(m, 2)
+
+
+def dt_colfilter(bk, xat, r, tap, m, mode='symmetric'):
+    """Y[i] = sum_t h[t] X_ext[i + (m-1-t) - m//2]  ('valid' convolution of the symmetric extension by m//2)"""
+    m2 = bk.div(m, 2)
+
+    def out(i):
+        def term(t):
+            k = i + (m - 1 - t) - m2
+            if mode == 'symmetric':
+                return tap(t) * xat(bk.ext_sym(k, r))
+            return tap(t) * bk.when(bk.and_(k >= 0, k < r), lambda: xat(k))
+        return bk.sum(0, m, term)
+    return out
+
+
+def dt_coldfilt(bk, xat, r, tapa, tapb, m, delta):
+    """decimating two-tree filter, r % 4 == 0, output length r/2:
+    Ya[i] = sum_t ha[t] X[ext(4i + m - 2t)],  Yb[i] = sum_t hb[t] X[ext(4i + m - 2t + 1)],
+    interleaved (Ya, Yb) for a lowpass pair and (Yb, Ya) for a highpass pair"""
+    def ya(i):
+        return bk.sum(0, m, lambda t: tapa(t) * xat(bk.ext_sym(4 * i + m - 2 * t, r)))
+
+    def yb(i):
+        return bk.sum(0, m, lambda t: tapb(t) * xat(bk.ext_sym(4 * i + m - 2 * t + 1, r)))
+
+    def out(k):
+        i = bk.div(k, 2)
+        s = bk.mod(k, 2)
+        first, second = (ya, yb) if delta == 0 else (yb, ya)
+        return bk.when(s == 0, lambda: first(i)) + bk.when(s == 1, lambda: second(i))
+    return out
+
+
+def dt_colifilt(bk, xat, r, tapa, tapb, m, delta):
+    """interpolating two-tree filter, r % 2 == 0, m even, output length 2r (see DESIGN / reference colifilt)"""
+    m2 = bk.div(m, 2)
+
+    def poly(i, tap, par, off):
+        # sum_q tap[2q + par] X[ext(2i + m2 + off - 2q)]
+        return bk.sum(0, m2, lambda q: tap(2 * q + par) * xat(bk.ext_sym(2 * i + m2 + off - 2 * q, r)))
+    d = delta
+
+    def out(k):
+        i = bk.div(k, 4)
+        s = bk.mod(k, 4)
+
+        def even_case():
+            return (bk.when(s == 0, lambda: poly(i, tapa, 1, -2 + d)) + bk.when(s == 1, lambda: poly(i, tapb, 1, -1 - d)) +
+                    bk.when(s == 2, lambda: poly(i, tapa, 0, 0 + d)) + bk.when(s == 3, lambda: poly(i, tapb, 0, 1 - d)))
+
+        def odd_case():
+            return (bk.when(s == 0, lambda: poly(i, tapa, 0, -1 + d)) + bk.when(s == 1, lambda: poly(i, tapb, 0, 0 - d)) +
+                    bk.when(s == 2, lambda: poly(i, tapa, 1, -1 + d)) + bk.when(s == 3, lambda: poly(i, tapb, 1, 0 - d)))
+        return bk.when(bk.mod(m2, 2) == 0, even_case) + bk.when(bk.mod(m2, 2) == 1, odd_case)
+    return out
